@@ -6,7 +6,9 @@ Open Scope N_scope.
 
 (* (ecu, reception time us, timestamp us, has_timestamp, is_ctrl_request) *)
 Definition mspec := (N * N * N * bool * bool)%type.
-Definition case_LC := (list mspec * list mspec)%type.
+(* (index base, index stride, (pre, msgs)): message k of a run carries index base + k*stride (the detector's periodic
+   refresh is driven by message indices, so strides > 1 reach it with short traces) *)
+Definition case_LC := (N * N * (list mspec * list mspec))%type.
 
 Fixpoint mk_msgs (i : N) (l : list mspec) : list msg :=
   match l with
@@ -15,14 +17,22 @@ Fixpoint mk_msgs (i : N) (l : list mspec) : list msg :=
       {| m_index := i; m_ecu := e; m_rt := rt; m_ts := ts; m_has_ts := h; m_creq := c; m_lc := 0 |} :: mk_msgs (i + 1) r
   end.
 
+Fixpoint mk_msgs_s (i stride : N) (l : list mspec) : list msg :=
+  match l with
+  | [] => []
+  | (e, rt, ts, h, c) :: r =>
+      {| m_index := i; m_ecu := e; m_rt := rt; m_ts := ts; m_has_ts := h; m_creq := c; m_lc := 0 |} :: mk_msgs_s (i + stride) stride r
+  end.
+
 (* run on `pre`, then a second run on `msgs` starting from the table published by the first *)
-Definition detect2 (c : case_LC) : list delivery * table :=
+Definition detect2s (base stride : N) (c : list mspec * list mspec) : list delivery * table :=
   let '(pre, ms) := c in
-  let '(d1, _) := run (init 1 []) (mk_msgs 0 pre) in
+  let '(d1, _) := run (init 1 []) (mk_msgs_s base stride pre) in
   let '(t1, _) := finish d1 in
-  let '(d2, o1) := run (init (next_id d1) (map snd t1)) (mk_msgs 0 ms) in
+  let '(d2, o1) := run (init (next_id d1) (map snd t1)) (mk_msgs_s base stride ms) in
   let '(t2, o2) := finish d2 in
   (o1 ++ o2, t2).
+Definition detect2 (c : list mspec * list mspec) : list delivery * table := detect2s 0 1 c.
 
 Definition published_ok (x : delivery) : bool :=
   match tbl_get (m_lc (fst x)) (snd x) with
@@ -50,7 +60,8 @@ Definition o_deliveries (o : list delivery) : otree :=
   T (map (fun x => T [L (m_index (fst x)); L (m_lc (fst x)); ob (published_ok x)]) o).
 
 Definition run_LC (c : case_LC) : otree :=
-  let '(o, t) := detect2 c in
+  let '(base, stride, pm) := c in
+  let '(o, t) := detect2s base stride pm in
   let t' := sort_by_id t in
   T [L 0; o_deliveries o; T (map o_row t');
      T [L 0; T (map (fun x => L (l_id x)) (listing (map snd t')))]].
